@@ -184,7 +184,10 @@ def run(prog, rep):
     V_SEC = var_assigned_from(ps, "pp_ini_file_section_new")
     if not (V_LINE and V_FILE and V_SEC):
         raise AnalysisBroken("p_ini_file_parse: line / file / section variables not found")
-    TR = tuple(sorted(ps.copies_of(V_SEC))) + (V_LINE, V_FILE)
+    # (plus the result temporaries of inlined helpers: `while (read_line (...))` must not leave the loop on the path where the helper said TRUE)
+    rets_ = set(strip_casts(n["l"])["name"] for (b, i, n) in ps.nodes(elsewhere=True) if n["k"] == "asg" and strip_casts(n["l"]) is not None and strip_casts(n["l"])["k"] == "ref"
+                and strip_casts(n["l"])["name"].startswith("__ret_") and cv(n["r"]) is not None)
+    TR = tuple(sorted(ps.copies_of(V_SEC))) + (V_LINE, V_FILE) + tuple(sorted(rets_))
     probs = []
     linked = [0]
 
